@@ -4,6 +4,7 @@ import Driver.C01
 import Driver.C03
 import Driver.C06
 import Driver.C07
+import Driver.C28
 import Driver.C29
 import Driver.C30
 import Driver.Pool
@@ -35,6 +36,7 @@ def step (line : String) : String :=
   | "C23" :: ts => stepC23 ts
   | "C24" :: ts => stepC24 ts
   | "C25" :: ts => stepC25 ts
+  | "C28" :: ts => stepC28 ts
   | "C29" :: ts => stepC29 ts
   | "C30" :: ts => stepC30 ts
   | "C31" :: ts => stepC31 ts
